@@ -5,20 +5,41 @@ import HttpcoreModel.Pool
 namespace Httpcore.C07
 open Httpcore.Pool
 
-/-- nothing can be created or evicted: the pool is at its limit and no connection is idle -/
+/-- the idle connections that are not spoken for (no request has been handed them) -/
+def freeIdle (s : State) : List Conn := s.conns.filter (fun c => c.idle && !(isReserved s.reserved c))
+
+/-- nothing can be created or evicted: the pool is at its limit and no idle connection is free to be evicted -/
 def Stuck (cfg : Cfg) (s : State) : Prop :=
-  ¬ s.conns.length < cfg.maxConn ∧ s.conns.filter (·.idle) = []
+  ¬ s.conns.length < cfg.maxConn ∧ freeIdle s = []
 
 def availFor (s : State) (origin : Nat) : List Conn :=
   s.conns.filter (fun c => c.origin == origin && c.available)
 
+theorem freeIdle_reserve (s : State) (x : Nat) (h : freeIdle s = []) :
+    freeIdle { s with reserved := x :: s.reserved } = [] := by
+  unfold freeIdle at h ⊢
+  rw [List.filter_eq_nil_iff] at h ⊢
+  intro c hc
+  have := h c hc
+  simp only [isReserved, List.contains_cons] at this ⊢
+  intro hx
+  apply this
+  simp only [Bool.and_eq_true, Bool.not_eq_eq_eq_not, Bool.not_true, Bool.or_eq_false_iff] at hx ⊢
+  exact ⟨hx.1, hx.2.2⟩
+
+/-- a stuck pool stays stuck and keeps its connections, whatever the request -/
 theorem assignOne_stuck (cfg : Cfg) (s : State) (r : Req) (h : Stuck cfg s) :
-    (assignOne cfg s r).1 = s := by
+    (assignOne cfg s r).1.conns = s.conns ∧ (assignOne cfg s r).1.closing = s.closing ∧ Stuck cfg (assignOne cfg s r).1 := by
   obtain ⟨h1, h2⟩ := h
   simp only [assignOne]
   split
-  · rfl
-  · simp [h1, h2]
+  · refine ⟨rfl, rfl, h1, ?_⟩
+    split
+    · exact freeIdle_reserve s _ h2
+    · exact h2
+  · have h2' : s.conns.filter (fun c => c.idle && !(isReserved s.reserved c)) = [] := h2
+    simp [h1, h2']
+    exact ⟨h1, h2⟩
 
 theorem assignOne_unassigned (cfg : Cfg) (s : State) (r : Req)
     (h : (assignOne cfg s r).2.conn = none) :
@@ -47,7 +68,8 @@ theorem assignAll_complete (cfg : Cfg) (s : State) (rs done : List Req) (hJ : J 
   | nil =>
     intro q hq hn
     simp only [assignAll] at hq ⊢
-    exact hJ q hq hn
+    obtain ⟨h1, h2⟩ := hJ q hq hn
+    exact ⟨h1, h2⟩
   | cons r rest ih =>
     simp only [assignAll]
     split
@@ -64,8 +86,10 @@ theorem assignAll_complete (cfg : Cfg) (s : State) (rs done : List Req) (hJ : J 
       simp only [List.mem_append, List.mem_singleton] at hq
       rcases hq with hq | rfl
       · obtain ⟨hs, ha⟩ := hJ q hq hn
-        rw [assignOne_stuck cfg s r hs]
-        exact ⟨hs, ha⟩
+        obtain ⟨e1, _, e3⟩ := assignOne_stuck cfg s r hs
+        refine ⟨e3, ?_⟩
+        unfold availFor at ha ⊢
+        rw [e1]; exact ha
       · obtain ⟨h1, h2, h3⟩ := assignOne_unassigned cfg s r hn
         rw [h1]
         have horig : (assignOne cfg s r).2.origin = r.origin := by
@@ -80,11 +104,12 @@ theorem assignAll_complete (cfg : Cfg) (s : State) (rs done : List Req) (hJ : J 
 
 /-- **C07.pass_complete** — after an assignment pass a request is still waiting only if no pooled
 connection can take it (none available for its origin), the pool is at its connection limit, and no
-idle connection could be evicted. For every configuration, queue and mix of connections. -/
+idle connection is free to be evicted (every idle one has been handed to a request that is about to
+use it). For every configuration, queue and mix of connections. -/
 theorem pass_complete (cfg : Cfg) (s : State) :
     ∀ q ∈ (pass cfg s).reqs, q.conn = none →
       ¬ (pass cfg s).conns.length < cfg.maxConn ∧
-      (pass cfg s).conns.filter (·.idle) = [] ∧
+      freeIdle (pass cfg s) = [] ∧
       (pass cfg s).conns.filter (fun c => c.origin == q.origin && c.available) = [] := by
   intro q hq hn
   simp only [pass] at hq ⊢
@@ -93,13 +118,15 @@ theorem pass_complete (cfg : Cfg) (s : State) :
 
 theorem assignAll_stuck (cfg : Cfg) (s : State) (rs done : List Req) (h : Stuck cfg s) :
     (assignAll cfg s rs done).conns = s.conns ∧ (assignAll cfg s rs done).closing = s.closing := by
-  induction rs generalizing done with
+  induction rs generalizing s done with
   | nil => simp [assignAll]
   | cons r rest ih =>
     simp only [assignAll]
     split
-    · exact ih _
-    · rw [show (assignOne cfg s r).1 = s from assignOne_stuck cfg s r h]; exact ih _
+    · exact ih s _ h
+    · obtain ⟨e1, e2, e3⟩ := assignOne_stuck cfg s r h
+      obtain ⟨f1, f2⟩ := ih (assignOne cfg s r).1 (done ++ [(assignOne cfg s r).2]) e3
+      exact ⟨f1.trans e1, f2.trans e2⟩
 
 /-- **C07.no_overtaking** — requests are examined in arrival order, and once one of them has to be
 left waiting no later request of the same pass gets a connection created or an idle one evicted
@@ -113,10 +140,10 @@ theorem no_overtaking (cfg : Cfg) (s : State) (r : Req) (rest done : List Req)
   exact (assignAll_stuck cfg s rest _ h2).1
 
 /-- **C07.served_when_possible** — conversely a queued request *is* given a connection by the pass
-whenever an available connection for its origin exists, or there is room, or an idle connection can
-be evicted, at its turn. -/
+whenever an available connection for its origin exists, or there is room, or an idle connection that is
+not spoken for can be evicted, at its turn. -/
 theorem served_when_possible (cfg : Cfg) (s : State) (r : Req)
-    (h : availFor s r.origin ≠ [] ∨ s.conns.length < cfg.maxConn ∨ s.conns.filter (·.idle) ≠ []) :
+    (h : availFor s r.origin ≠ [] ∨ s.conns.length < cfg.maxConn ∨ freeIdle s ≠ []) :
     (assignOne cfg s r).2.conn ≠ none := by
   intro hn
   obtain ⟨_, ⟨h2, h3⟩, h4⟩ := assignOne_unassigned cfg s r hn
